@@ -7,12 +7,12 @@ deconvolution computes when nothing wraps, Python's slice `[: len c − len psf 
 approximation, the polynomial-with-recursion gamma approximation and the triangular density — these parts of
 the code are rational functions of their inputs and are modelled as coded.
 
-The other eight kernel generators are modelled as coded *around* their density: the axis, the evaluation of
-the density on it, the division by the sum, the stacking (`generatorWith`, the density being a parameter with
-values in any field).  `erfinv` is modelled as coded around its transcendental pieces (`erfinvWith`: π, log1p
+The other eight kernel generators are modelled as coded *around* `exp`, `log`, real powers and `sqrt(2π)`
+(`Special`: these are parameters with values in any type with the field operations): the density formulas, the
+axis, the evaluation of the density on it, the division by the sum, the stacking (`generatorWith`).  `erfinv` is modelled as coded around its transcendental pieces (`erfinvWith`: π, log1p
 and sqrt are parameters, `Transc`).  The *accuracy* of the approximations against the true transcendental
-functions and the positivity of `exp`/powers in the eight density formulas are not modelled; the harness
-validates those numerically (see `harness/c18.py`).
+functions is not modelled; the harness validates it numerically (see `harness/c18.py`).  Positivity of the
+eight densities is proved from positivity of `exp` and of real powers (`PewTheorems/C18.lean`).
 -/
 namespace Pew.Convolve
 
@@ -202,17 +202,84 @@ def generatorWith {K : Type} [Add K] [Zero K] [Div K] (kind : AxisKind) (pdf : R
 def triangular (size : Nat) (a b scale shift : Rat) : List (Rat × Rat) :=
   generatorWith .sym (triangularPdf a b) size scale shift
 
-/-! The other eight generators, as coded around their density function (`beta_pdf(·, alpha, beta)`,
-`exponential_pdf(·, lambda)`, …: built from `exp`, `log`, real powers, `sqrt(2π)` and the gamma
-approximation), which is the parameter `pdf`. -/
+/-! ## the other eight generators, as coded around `exp`, `log`, real powers and `sqrt(2π)`
 
-def betaWith {K : Type} [Add K] [Zero K] [Div K] (pdf : Rat → K) := generatorWith (K := K) .unit pdf
-def exponentialWith {K : Type} [Add K] [Zero K] [Div K] (pdf : Rat → K) := generatorWith (K := K) .pos pdf
-def inversegammaWith {K : Type} [Add K] [Zero K] [Div K] (pdf : Rat → K) := generatorWith (K := K) .pos pdf
-def loglaplaceWith {K : Type} [Add K] [Zero K] [Div K] (pdf : Rat → K) := generatorWith (K := K) .pos pdf
-def lognormalWith {K : Type} [Add K] [Zero K] [Div K] (pdf : Rat → K) := generatorWith (K := K) .pos pdf
-def laplaceWith {K : Type} [Add K] [Zero K] [Div K] (pdf : Rat → K) := generatorWith (K := K) .sym pdf
-def normalWith {K : Type} [Add K] [Zero K] [Div K] (pdf : Rat → K) := generatorWith (K := K) .sym pdf
-def superGaussianWith {K : Type} [Add K] [Zero K] [Div K] (pdf : Rat → K) := generatorWith (K := K) .sym pdf
+The functions that are not rational are parameters (`Special`), with values in any type `K` that has the field
+operations; everything else — which expression is handed to them, the constants, the gamma approximation
+inside `beta_pdf` and `inversegamma_pdf`, the axis, the normalisation — is as coded.  Float expressions whose
+operands are all rational (`-_lambda * x`, `(x - mu) / sigma`, …) stay rational and are embedded once. -/
+
+structure Special (K : Type) where
+  ofRat : Rat → K
+  /-- `np.exp` -/
+  exp : K → K
+  /-- `np.log` -/
+  log : K → K
+  /-- `x ** y` for floats -/
+  rpow : K → K → K
+  /-- `np.abs` on a value that is not rational -/
+  abs : K → K
+  /-- `_s2pi = np.sqrt(2.0 * np.pi)` -/
+  s2pi : K
+
+section densities
+variable {K : Type} [Add K] [Sub K] [Mul K] [Div K] [Neg K] (S : Special K)
+
+/-- `_lambda * np.exp(-_lambda * x)` -/
+def exponentialPdf (lam x : Rat) : K := S.ofRat lam * S.exp (S.ofRat (-lam * x))
+
+/-- `(1.0 / (2.0 * b)) * np.exp(-np.abs(x - mu) / b)` -/
+def laplacePdf (b mu x : Rat) : K := S.ofRat (1 / (2 * b)) * S.exp (S.ofRat (-absR (x - mu) / b))
+
+/-- `1.0 / (sigma * _s2pi) * np.exp(-0.5 * ((x - mu) / sigma) ** 2)` -/
+def normalPdf (sigma mu x : Rat) : K :=
+  S.ofRat 1 / (S.ofRat sigma * S.s2pi) * S.exp (S.ofRat (-(1 / 2) * ((x - mu) / sigma) ^ 2))
+
+/-- `1.0 / (sigma * _s2pi) * np.exp(-0.5 * ((x - mu) / sigma) ** (2 * power))` for an integer `power` -/
+def superGaussianPdf (sigma mu : Rat) (power : Nat) (x : Rat) : K :=
+  S.ofRat 1 / (S.ofRat sigma * S.s2pi) * S.exp (S.ofRat (-(1 / 2) * ((x - mu) / sigma) ^ (2 * power)))
+
+/-- `1.0 / (x * sigma * _s2pi) * np.exp(-0.5 * ((np.log(x) - mu) / sigma) ** 2)` -/
+def lognormalPdf (sigma mu x : Rat) : K :=
+  let t := (S.log (S.ofRat x) - S.ofRat mu) / S.ofRat sigma
+  S.ofRat 1 / (S.ofRat (x * sigma) * S.s2pi) * S.exp (-(S.ofRat (1 / 2)) * (t * t))
+
+/-- `1.0 / (2.0 * b * x) * np.exp(-np.abs(np.log(x) - mu) / b)` -/
+def loglaplacePdf (b mu x : Rat) : K :=
+  S.ofRat (1 / (2 * b * x)) * S.exp (-(S.abs (S.log (S.ofRat x) - S.ofRat mu)) / S.ofRat b)
+
+/-- `((beta**alpha) / gamma(alpha)) * x ** (-alpha - 1.0) * np.exp(-beta / x)`; `gamma` is pewlib's approximation -/
+def inversegammaPdf (alpha beta x : Rat) : K :=
+  (S.rpow (S.ofRat beta) (S.ofRat alpha) / S.ofRat (gammaApprox alpha))
+    * S.rpow (S.ofRat x) (S.ofRat (-alpha - 1)) * S.exp (S.ofRat (-beta / x))
+
+/-- `B = (gamma(alpha) * gamma(beta)) / gamma(alpha + beta); x ** (alpha - 1.0) * (1.0 - x) ** (beta - 1.0) / B` -/
+def betaPdf (alpha beta x : Rat) : K :=
+  S.rpow (S.ofRat x) (S.ofRat (alpha - 1)) * S.rpow (S.ofRat (1 - x)) (S.ofRat (beta - 1))
+    / S.ofRat (gammaApprox alpha * gammaApprox beta / gammaApprox (alpha + beta))
+
+end densities
+
+section generators
+variable {K : Type} [Add K] [Sub K] [Mul K] [Div K] [Neg K] [Zero K] (S : Special K)
+
+def beta (size : Nat) (alpha beta_ scale shift : Rat) : List (Rat × K) :=
+  generatorWith .unit (betaPdf S alpha beta_) size scale shift
+def exponential (size : Nat) (lam scale shift : Rat) : List (Rat × K) :=
+  generatorWith .pos (exponentialPdf S lam) size scale shift
+def inversegamma (size : Nat) (alpha beta_ scale shift : Rat) : List (Rat × K) :=
+  generatorWith .pos (inversegammaPdf S alpha beta_) size scale shift
+def laplace (size : Nat) (b mu scale shift : Rat) : List (Rat × K) :=
+  generatorWith .sym (laplacePdf S b mu) size scale shift
+def loglaplace (size : Nat) (b mu scale shift : Rat) : List (Rat × K) :=
+  generatorWith .pos (loglaplacePdf S b mu) size scale shift
+def lognormal (size : Nat) (sigma mu scale shift : Rat) : List (Rat × K) :=
+  generatorWith .pos (lognormalPdf S sigma mu) size scale shift
+def normal (size : Nat) (sigma mu scale shift : Rat) : List (Rat × K) :=
+  generatorWith .sym (normalPdf S sigma mu) size scale shift
+def superGaussian (size : Nat) (sigma mu : Rat) (power : Nat) (scale shift : Rat) : List (Rat × K) :=
+  generatorWith .sym (superGaussianPdf S sigma mu power) size scale shift
+
+end generators
 
 end Pew.Convolve
